@@ -1,6 +1,7 @@
 package transport
 
 import (
+	"errors"
 	"fmt"
 	"io"
 	"net"
@@ -120,6 +121,16 @@ func (t *Standard) openBase(a *Args) error {
 		}
 
 		signer, err := ssh.ParsePrivateKey(k)
+
+		var protected *ssh.PassphraseMissingError
+		if errors.As(err, &protected) && t.SSHArgs.PrivateKeyPassPhrase != "" {
+			// the key is passphrase protected and we have been given a passphrase for it
+			signer, err = ssh.ParsePrivateKeyWithPassphrase(
+				k,
+				[]byte(t.SSHArgs.PrivateKeyPassPhrase),
+			)
+		}
+
 		if err != nil {
 			a.l.Criticalf("error parsing ssh key: %s", err)
 
